@@ -67,6 +67,7 @@ WRAPPERS = ['none', 'mc_w', 'int_w', 'cmp_w', 'elem_w', 'condsum_w', 'logit_w', 
 PLACEMENT_FAULTS = ['unknown_column', 'dup_beta_column', 'dup_free_fixed', 'draws_outside_mc', 'rv_outside_integral',
                     'logit_av_mismatch', 'logit_av_missing_key', 'logit_av_extra_key', 'logit_bad_choice']
 EXTRA_FAULTS = ['extra_mc_without_draws', 'extra_integrate_without_rv', 'extra_nested_mc', 'extra_plt_without_panel']
+WARNING_ONLY = ['chosen_alternative_unavailable', 'chained_comparison', 'belongs_to_non_integer_set']
 VARIABLE_FAULTS = {'unknown_column'}          # faults that are themselves a Variable (fit a variable-only hole)
 
 
@@ -180,6 +181,14 @@ def gen_cases(tier, rng):
     # a catalog as the root of the formula
     for entry in ('expr', 'biogeme'):
         add(group='valid', host='catalog_root', wrap='none', fault='none', entry=entry, db='plain', expect='number')
+    # (m5, round 3) specifications that deserve a WARNING only: the audit reports no error and one warning, and the two entry points
+    # do not end in a foreign exception (the numpy tail of LogLogit.audit and the warning branches of the other audits)
+    for name in WARNING_ONLY:
+        add(group='warning', host='-', wrap='-', fault=name, entry='audit', db='plain', expect='warning_only')
+    # the trajectory operator without a database is an error; under MonteCarlo it is reported together with a warning
+    add(group='warning', host='-', wrap='-', fault='mc_trajectory_without_database', entry='audit', db='none', expect='one_error_one_warning')
+    for entry in ('expr', 'biogeme'):
+        add(group='warning', host='-', wrap='-', fault='chosen_alternative_unavailable', entry=entry, db='plain', expect='no_foreign_exception')
     # operators evaluated without any database
     for name in ['extra_plt_without_database', 'extra_variable_without_database']:
         add(group='plant', host='-', wrap='none', fault=name, entry='expr', db='none', expect='BiogemeError')
@@ -440,6 +449,37 @@ def execute(case):
             out['want'] = expected_value_unselected(case) if case['wrap'] == 'none' else None
         return out
 
+    if g == 'warning':
+        f = case['fault']
+
+        def run():
+            from biogeme.expressions import _bioLogLogit, BelongsTo, MonteCarlo, bioDraws
+            df = base_frame()
+            df['av_off'] = [1.0, 0.0, 1.0, 1.0]          # alternative 2 is chosen in row 1 and is not available there
+            d = db.Database('c12', df)
+            b = Beta('b', 0.5, None, None, 0)
+            if f == 'chosen_alternative_unavailable':
+                e = _bioLogLogit({1: b * Variable('y'), 2: Variable('z')}, {1: Variable('av'), 2: Variable('av_off')}, Variable('ch'))
+            elif f == 'chained_comparison':
+                e = (Variable('x') < Variable('y')) < Variable('z')
+            elif f == 'belongs_to_non_integer_set':
+                e = BelongsTo(Variable('x'), {1.5, 2})
+            elif f == 'mc_trajectory_without_database':
+                e = MonteCarlo(PanelLikelihoodTrajectory(b) * bioDraws('xi', 'UNIFORM'))
+                d = None
+            else:
+                raise ValueError(f)
+            if case['entry'] == 'audit':
+                errors, warnings_ = e.audit(d)
+                return 1000.0 * len(errors) + len(warnings_)
+            if case['entry'] == 'expr':
+                r = e.get_value_and_derivatives(database=d, number_of_draws=4, aggregation=True, prepare_ids=True,
+                                                gradient=False, hessian=False, bhhh=False)
+                return r.function
+            bg = BIOGEME(d, e, parameters=params())
+            return bg.calculate_likelihood(bg.id_manager.free_betas_values, scaled=False)
+        return outcome(run)
+
     if g == 'plant' and case['db'] == 'none':
         def run():
             if case['fault'] == 'extra_plt_without_database':
@@ -613,6 +653,18 @@ def judge(case, out):
         if o in ('BiogemeError', 'exception') or (o == 'number' and math.isnan(out['value'])):
             return None
         return ('a read missing-data code fails with an error', 'an exception (or NaN for that observation)', got)
+    if exp_ == 'warning_only':
+        if o == 'number' and out['value'] == 1.0:
+            return None
+        return ('a specification that deserves a warning only: no error, one warning', '0 errors, 1 warning (encoded 1.0)', got)
+    if exp_ == 'one_error_one_warning':
+        if o == 'number' and out['value'] == 1001.0:
+            return None
+        return ('audit of MonteCarlo over a trajectory operator without database: one error, one warning', '1 error, 1 warning (encoded 1001.0)', got)
+    if exp_ == 'no_foreign_exception':
+        if o in ('number', 'BiogemeError'):
+            return None
+        return ('a warning-only specification never ends in a foreign exception', 'a number or BiogemeError', got)
     if exp_ == 'value':
         if o == 'number' and out.get('want') is None and math.isfinite(out['value']):
             return None         # under a wrapper only "evaluates to a finite number" is asserted
@@ -760,7 +812,7 @@ def main():
              'variable outside the trajectory on panel data, availability keys != utility keys (3 shapes), choice not an alternative, second '
              'derivatives without first} + 4 extra operator rules x 2 entry points; fault-free hosts; missing-data code read / in '
              'unselected Elem and ConditionalSum branch / unread column / non-default declared code (9 cases); 15 data faults; '
-             '10 model functions x overlapping / leaving nests' % (len(cases), len(HOSTS), 'sampled' if tier == 'quick' else 'all 8'))
+             '10 model functions x overlapping / leaving nests; 3 warning-only specifications (audit: no error, one warning; no foreign exception) + 1 error-and-warning audit' % (len(cases), len(HOSTS), 'sampled' if tier == 'quick' else 'all 8'))
     print(json.dumps({'cases': len(cases), 'bound': bound, 'failures': (diverse + rest)[:10],
                       'n_failures': len(failures), 'n_failure_classes': len(diverse),
                       'n_cases_retried_after_crash': sum(1 for o in results.values() if o.get('died_retries'))}))
